@@ -449,7 +449,11 @@ class ExcelCompiler:
 
         cell_or_range = self.cell_map[address]
 
-        if cell_or_range.value != value:  # pragma: no branch
+        old_value = cell_or_range.value
+        if old_value != value or any(  # pragma: no branch
+                # python thinks 0 == False and 1 == True, excel does not
+                isinstance(old, bool) != isinstance(new, bool)
+                for old, new in zip(flatten(old_value), flatten(value))):
             # need to be able to 'set' an empty cell, set to not None
             cell_or_range.value = value
 
